@@ -108,9 +108,102 @@ def candidates(key, model, budget_s):
     return gen(0, {})
 
 
+class CannotGenerate(Exception):
+    pass
+
+
+def gen_value(T, rnd, alpha, depth=0):
+    "a small random value description of contract type T (see rt.build_value)"
+    k = T[0]
+    if k == 'str':
+        n = rnd.choice((0, 1, 2, 3, 3, 4, 5, 6, 7, 9))
+        return ''.join(rnd.choice(alpha) for _ in range(n))
+    if k in ('char', 'echar'):
+        return rnd.choice(alpha)
+    if k == 'int':
+        return rnd.randint(-1, 9)
+    if k == 'bool':
+        return rnd.random() < 0.5
+    if k == 'none':
+        return None
+    if k == 'float':
+        return rnd.choice((0.0, 1.5, -2.0, 10.25))
+    if k == 'enum':
+        return rnd.choice(list(T[1]))
+    if k == 'union':
+        return gen_value(rnd.choice(list(T[1])), rnd, alpha, depth)
+    if depth > 3:
+        raise CannotGenerate(str(T))
+    if k == 'list':
+        return {'__list__': [gen_value(T[1], rnd, alpha, depth + 1) for _ in range(rnd.randint(0, 3))]}
+    if k == 'tuple':
+        return tuple(gen_value(t, rnd, alpha, depth + 1) for t in T[1])
+    if k == 'ref':
+        if T[1] == 'Scanner':
+            s = gen_value(('str',), rnd, alpha)
+            pos = rnd.randint(0, len(s))
+            return {'__class__': 'Scanner', 'string': s, 'pos': pos, 'start': rnd.randint(0, pos), 'end': len(s)}
+        cc = REG.classes.get(T[1])
+        if cc is None:
+            raise CannotGenerate(str(T))
+        d = {'__class__': T[1]}
+        for f, ft in cc.fields.items():
+            d[f] = gen_value(parse_type(ft), rnd, alpha, depth + 1)
+        return d
+    if k == 'rec':
+        flds = REG.recs.get(T[1])
+        if flds is None:
+            raise CannotGenerate(str(T))
+        d = {'__rec__': T[1]}
+        for f, ft in flds.items():
+            if T[1] in REG.rec_optional and rnd.random() < 0.4:
+                continue
+            d[f] = gen_value(parse_type(ft), rnd, alpha, depth + 1)
+        return d
+    raise CannotGenerate(str(T))      # any / fn / pred / map: nothing sensible to invent
+
+
+def import_chars(module):
+    "character constants of the modules this module imports from (one level): its callees' alphabet"
+    out = []
+    for v in list(vars(module).values()):
+        m2 = sys.modules.get(getattr(v, '__module__', None) or '')
+        if m2 is not None and m2 is not module and getattr(m2, '__file__', '').startswith(rt.REPO):
+            for ch in module_chars(m2):
+                if ch not in out:
+                    out.append(ch)
+    return out
+
+
+def random_candidates(key, seed=0):
+    import random
+    c = REG.fns[key]
+    m, f = rt.get_function(key)
+    alpha = []
+    for ch in module_chars(m) + import_chars(m) + list('a 1'):
+        if ch not in alpha and (ch.isprintable() or ch == '\n'):
+            alpha.append(ch)
+    alpha = alpha[:14]
+    rnd = random.Random(seed)
+    types = {n: parse_type(t) for n, t in c.params.items()}
+    while True:
+        yield {n: gen_value(T, rnd, alpha) for n, T in types.items()}
+
+
+def enclosing(key):
+    "closures are not addressable at run time: the enclosing function's contract is searched instead"
+    if '.<locals>.' in key:
+        outer = key.split('.<locals>.')[0]
+        if outer in REG.fns:
+            return outer
+    return key
+
+
 def run(key, model, budget_s=20.0):
     t0 = time.time()
     tried = 0
+    key = enclosing(key)
+    model = model or {}
 
     def attempt(desc):
         args = {}
@@ -122,15 +215,38 @@ def run(key, model, budget_s=20.0):
             args[n] = rt.build_value(v)
         return rt.call_checked(key, args)
 
-    try:
-        out = attempt(model)
-        tried += 1
-        if out['status'] == 'violation':
-            return {'confirmed': True, 'call': {'key': key, 'args': model}, 'outcome': out, 'tried': tried,
-                    'how': 'model'}
-    except Exception as e:
-        out = {'status': 'error', 'detail': repr(e)}
+    out = {'status': 'no-model'}
+    if model:
+        try:
+            out = attempt(model)
+            tried += 1
+            if out['status'] == 'violation':
+                return {'confirmed': True, 'call': {'key': key, 'args': model}, 'outcome': out, 'tried': tried,
+                        'how': 'model'}
+        except Exception as e:
+            out = {'status': 'error', 'detail': repr(e)}
     first = out
+    c = REG.fns.get(key)
+    if c is None or c.trusted or c.inline:
+        return {'confirmed': False, 'tried': tried, 'outcome': first, 'search_error': 'no executable contract for ' + key}
+    # second half of the budget: random values of every declared parameter type (lists, objects, records)
+    try:
+        it = random_candidates(key)
+        while time.time() - t0 < budget_s / 2.0:
+            try:
+                desc = next(it)
+            except CannotGenerate:
+                break
+            tried += 1
+            try:
+                out = attempt(desc)
+            except RecursionError:
+                continue
+            if out['status'] == 'violation':
+                return {'confirmed': True, 'call': {'key': key, 'args': desc}, 'outcome': out, 'tried': tried,
+                        'how': 'random search of the real function under its run-time contract'}
+    except Exception as e:
+        first = {'status': 'error', 'detail': 'random search: %r' % e}
     try:
         for desc in candidates(key, model, budget_s):
             if time.time() - t0 > budget_s:
